@@ -14,6 +14,7 @@ import (
 	"slices"
 	"strings"
 	"testing"
+	"time"
 
 	"github.com/ovh/kmip-go/ttlv"
 
@@ -138,7 +139,27 @@ type streamSpec struct {
 	Bad   []int // indices (from 1) of the malformed messages
 }
 
+// runStream with a watchdog: Recv cannot be interrupted, so a stream that does not finish within 20 s of wall time (they take
+// milliseconds) ends the process with exit code 3 after a `hang` event has been written; the check reports it with the stream.
 func runStream(w *vh.Writer, s streamSpec, p *plan) {
+	done := make(chan struct{})
+	go func() {
+		defer close(done)
+		runStream1(w, s, p)
+	}()
+	select {
+	case <-done:
+	case <-time.After(20 * time.Second):
+		hw, err := vh.NewWriter(vh.Env("VERIF_TRACE", "") + ".hang")
+		if err == nil {
+			hw.Emit(map[string]any{"ev": "hang", "A": s.A, "trunc": s.Trunc, "max": s.Max, "bad": s.Bad, "mode": p.mode, "fixed": p.fixed})
+			hw.Close()
+		}
+		os.Exit(3)
+	}
+}
+
+func runStream1(w *vh.Writer, s streamSpec, p *plan) {
 	var data []byte
 	for k, a := range s.A {
 		if a > 4<<20 { // huge announced length: header only (the bytes never arrive)
